@@ -67,15 +67,19 @@ def run(ctx):
             else:
                 ctx.violated(r1, f, f"{var} in loop over {A.short(loop.iter, 30)}", f"slices do not tile: {res['why']}", expected="one advance per iteration by the width of the slice taken", node=loop)
     cr = repo.func(PDF, "_ModelConfig._create_and_register_paramsets")
-    loop = [n for n in ast.walk(cr.node) if isinstance(n, ast.For)][0]
-    names = A.assigned_names(loop.target)
-    po = [c for c in A.calls_in(loop) if A.call_attr(c) == "append" and "par_order" in (A.dotted(c.func.value) or "")]
-    pmst = [n for n in ast.walk(loop) if isinstance(n, ast.Assign) and isinstance(n.targets[0], ast.Subscript) and "par_map" in (A.dotted(n.targets[0].value) or "")]
-    ok = po and pmst and A.dotted(po[0].args[0]) == names[0] and A.unparse(pmst[0].targets[0].slice) == names[0] and "sl" in A.names_loaded(pmst[0].value) and names[1] in A.names_loaded(pmst[0].value)
-    if ok:
-        ctx.holds(r1, f"{PDF}::_create_and_register_paramsets", "par_order.append(name); par_map[name] = {slice, paramset} of the same iteration")
-    else:
-        ctx.violated(r1, cr, "par_order / par_map registration", "the slice, the paramset and the name registered in one iteration do not belong together", node=loop)
+    try:
+        pa_, pb_ = Obj("PA", {"n_parameters": Poly.const(1)}), Obj("PB", {"n_parameters": Poly.const(2)})
+        attrs = {"_par_order": [], "par_map": {}}
+        ext = {"slice": lambda a, k: ("slice", int(to_poly(a[0]).const_value()), int(to_poly(a[1]).const_value()))}
+        Interp({"required_paramsets": {"a": pa_, "b": pb_}, "log": Obj("log")}, attrs, {}, cls_name="_ModelConfig", externals=ext).run(A.strip_docstring(cr.node.body))
+        pmv = attrs["par_map"]
+        ok = attrs["_par_order"] == ["a", "b"] and list(pmv) == ["a", "b"] and pmv["a"]["slice"] == ("slice", 0, 1) and pmv["b"]["slice"] == ("slice", 1, 3) and pmv["a"]["paramset"] is pa_ and pmv["b"]["paramset"] is pb_
+        if ok:
+            ctx.holds(r1, f"{PDF}::_create_and_register_paramsets", "par_order [a, b]; par_map[a] = slice(0,1)/PA, par_map[b] = slice(1,3)/PB (interpreted)")
+        else:
+            ctx.violated(r1, cr, "par_order / par_map registration", "the slice, the paramset and the name registered in one iteration do not belong together (or the slices do not tile)", expected="a: slice(0,1), b: slice(1,3)", found=str({k: v.get("slice") for k, v in pmv.items()}) + f" order={attrs['_par_order']}")
+    except (Undecided, KeyError, TypeError) as e:
+        ctx.unrecognised(r1, cr, "_create_and_register_paramsets", f"not interpretable: {e}")
 
     # ------------------------------------------------------------ R2
     cfgc = repo.cls(PDF, "_ModelConfig")
@@ -163,7 +167,13 @@ def run(ctx):
     nm = repo.func(PDF, "_nominal_and_modifiers_from_spec")
     ctx.touch(nm)
     pmn = A.parent_map(nm.node)
-    appends = [c for c in A.calls_in(nm.node) if A.call_attr(c) == "append" and isinstance(c.func.value, (ast.Subscript, ast.Name)) and ("modifiers_builders" in A.unparse(c.func.value) or A.unparse(c.func.value) == "nominal")]
+    builder_vars = set()
+    for n in ast.walk(nm.node):
+        if isinstance(n, ast.Assign):
+            v = n.value
+            if (isinstance(v, ast.Call) and A.call_attr(v) == "_nominal_builder") or (isinstance(v, ast.DictComp) and "modifier_set" in A.unparse(v.generators[0].iter) and isinstance(v.value, ast.Call)):
+                builder_vars |= set(A.assigned_names(n.targets[0]))
+    appends = [c for c in A.calls_in(nm.node) if A.call_attr(c) == "append" and isinstance(c.func.value, (ast.Subscript, ast.Name)) and ((A.dotted(c.func.value) in builder_vars) or (isinstance(c.func.value, ast.Subscript) and A.dotted(c.func.value.value) in builder_vars))]
     if len(appends) < 2:
         ctx.unrecognised(r4, nm, "builder.append", "builder append calls not found")
     for c in appends:
@@ -209,7 +219,8 @@ def run(ctx):
         else:
             ctx.violated(r3, wd, c, "operator.iadd accumulates into the first channel's observation list (no fresh initial accumulator): calling data() grows the workspace's own observations", expected="functools.reduce(operator.iadd, ..., [])", node=c)
     aux = [n for n in ast.walk(wd.node) if isinstance(n, ast.If) and "include_auxdata" in A.unparse(n.test)]
-    if aux and any(isinstance(s, ast.AugAssign) and "model.config.auxdata" in A.unparse(s.value) and A.unparse(s.target) == "observed_data" for s in aux[0].body):
+    acc = {nm for n in ast.walk(wd.node) if isinstance(n, ast.Assign) and any(A.call_attr(c) == "reduce" for c in A.calls_in(n.value)) for nm in A.assigned_names(n.targets[0])}
+    if aux and any(isinstance(s, ast.AugAssign) and "model.config.auxdata" in A.unparse(s.value) and A.unparse(s.target) in acc for s in aux[0].body):
         ctx.holds(r5, f"{WS}::Workspace.data", "auxdata appended iff include_auxdata")
     else:
         ctx.violated(r5, wd, "include_auxdata", "auxiliary data are not appended (exactly) when requested", node=wd.node)
